@@ -4,6 +4,7 @@ import (
 	"go/ast"
 	"go/token"
 	"go/types"
+	"sort"
 	"strings"
 
 	"golang.org/x/tools/go/types/typeutil"
@@ -166,7 +167,28 @@ func (s *sup) execute(exec, start *core.FuncDecl) {
 		g := prepare(c, p)
 		armed := false
 		sawCurrent := false
+		userCall := -1
+		var userErr *types.Var
+		tampered := token.NoPos
 		for i, ev := range p.Events {
+			// the user function's result: err = r.routine(ctx)
+			if ev.Kind == core.KCall && ev.Callee == nil && ev.Builtin == "" && callsField(ev, s.f("routine")) {
+				userCall = i
+			}
+			if ev.Kind == core.KAssign && !ev.FieldInit && userCall >= 0 {
+				if v := identVar(ev.Lhs, ev.Frame); v != nil && isErrorType(v.Type()) {
+					if ev.Rhs != nil && unparen(ev.Rhs) == ast.Expr(p.Events[userCall].Call) {
+						userErr = v
+					} else if v == userErr {
+						tampered = ev.Pos
+					}
+				}
+			}
+			if assignsField(ev, s.f("err"), "") && userCall >= 0 {
+				a.note("R12", name+"/records-routine-result", ev.Pos, tampered.IsValid() || userErr == nil || identVar(ev.Rhs, ev.Frame) != userErr,
+					"the error recorded (and reported to the exit callbacks) is the value the routine returned",
+					"after the routine returned, its error is reassigned ("+c.Prog.Pos(tampered)+") or replaced before it is recorded: WaitExited and the exit callbacks report something else than what the routine returned", p)
+			}
 			isStatus := false
 			for _, f := range []string{"err", "success", "exited", "exitedCh"} {
 				if assignsField(ev, s.f(f), "") {
@@ -661,7 +683,7 @@ func (s *sup) routineExtras() {
 	if d := c.declByName("R12", "routine", "StateRoutineContainer", "setStateLocked"); d != nil {
 		name := core.FuncName(d.Obj)
 		c.Walk("R12", &core.Config{Follow: func(f *types.Func) bool { return false }}, core.Entry{Decl: d}, func(p *core.Path) {
-			stored := false
+			stored, rebuilt := false, false
 			for _, ev := range p.Events {
 				if assignsField(ev, "routine.StateRoutineContainer.s", "") {
 					stored = true
@@ -669,7 +691,12 @@ func (s *sup) routineExtras() {
 				if (ev.Kind == core.KCall || ev.Kind == core.KEnter) && ev.Callee != nil && ev.Callee.Name() == "updateStateRoutineLocked" {
 					a.note("R12", name+"/store-state-before-rebuild", ev.Pos, !stored, "the new state is stored before the routine is rebuilt from it",
 						"the routine is rebuilt before the new state is stored: the new instance runs with the previous state", p)
+					rebuilt = true
 				}
+			}
+			if stored && p.End == core.EndReturn {
+				a.note("R12", name+"/stored-state-reaches-routine", d.Decl.Pos(), !rebuilt, "every path that stores a state rebuilds the routine from it",
+					"a path stores a new state without rebuilding the routine: the stored state and the state the running (and every later) instance was given differ", p)
 			}
 		})
 		a.expect("R12", name+"/store-state-before-rebuild", 1, "updateStateRoutineLocked in setStateLocked")
@@ -697,5 +724,62 @@ func (s *sup) routineExtras() {
 			return false
 		})
 		_ = n
+	}
+}
+
+func init() {
+	register(&Rule{ID: "Gbackoff", Text: `R12 backoff configuration: in the constructors of the back-off (util/backoff) every field of the third-party back-off object that is assigned on some path is assigned on every path — no tunable silently keeps the third-party default (cenkalti's 15 minute MaxElapsedTime makes a retrying routine give up for good).`, Run: runGbackoff})
+}
+
+func runGbackoff(c *Ctx) {
+	a := newAgg(c)
+	defer a.flush()
+	pkg := c.Prog.Pkg("backoff")
+	if pkg == nil {
+		c.MissingAnchor("R12", "package backoff")
+		return
+	}
+	n := 0
+	for _, d := range c.Prog.Funcs {
+		if d.Pkg != pkg || !strings.HasPrefix(d.Obj.Name(), "construct") {
+			continue
+		}
+		n++
+		d := d
+		name := core.FuncName(d.Obj)
+		type pw struct {
+			fields map[string]bool
+			p      *core.Path
+		}
+		var pws []pw
+		all := map[string]bool{}
+		c.Walk("R12", &core.Config{}, core.Entry{Decl: d}, func(p *core.Path) {
+			if p.End != core.EndReturn {
+				return
+			}
+			fs := map[string]bool{}
+			for _, ev := range p.Events {
+				if ev.Kind == core.KAssign && !ev.FieldInit && ev.Var != nil && ev.Var.IsField() && !core.InModule(ev.Var) {
+					fs[ev.Var.Name()] = true
+					all[ev.Var.Name()] = true
+				}
+			}
+			pws = append(pws, pw{fs, p})
+		})
+		for _, x := range pws {
+			var missing []string
+			for f := range all {
+				if !x.fields[f] {
+					missing = append(missing, f)
+				}
+			}
+			sort.Strings(missing)
+			a.note("R12", name+"/config-complete", d.Decl.Pos(), len(missing) > 0,
+				sprintf("every path sets the same %d fields of the third-party back-off", len(all)),
+				sprintf("a path leaves %v at the third-party default although other paths set it: the configured behaviour (e.g. 'never stop retrying') silently depends on which branch ran", missing), x.p)
+		}
+	}
+	if n == 0 {
+		c.MissingAnchor("R12", "backoff.construct* functions")
 	}
 }
